@@ -6,7 +6,10 @@ TARGETS = {
     "C01-a": ["C01", "C09"], "C02-a": ["C02", "C03"], "C03-a": ["C03", "C04"], "C04-a": ["C04"], "C05-a": ["C05", "C03"],
     "C06-a": ["C06", "C07"], "C07-a": ["C07", "C06", "C08"], "C08-a": ["C08"], "C09-a": ["C09", "C01"], "C10-a": ["C10"],
     "C11-a": ["C11"], "C12-a": ["C12"], "C13-a": ["C13", "C04"], "C14-a": ["C14"], "C15-a": ["C15", "C14"],
-    "C16-a": ["C16"], "C17-a": ["C17"], "C18-a": ["C18"], "C19-a": ["C19"],
+    "C16-a": ["C16", "C19"], "C17-a": ["C17"], "C18-a": ["C18"], "C19-a": ["C19"],
+    "C01-b": ["C01", "C09"], "C02-b": ["C02", "C03"], "C03-b": ["C03", "C04"], "C04-b": ["C04"], "C06-b": ["C06"],
+    "C07-b": ["C07"], "C09-b": ["C09", "C01", "C14"], "C11-b": ["C11"], "C12-b": ["C12", "C11"], "C13-b": ["C13", "C02"],
+    "C14-b": ["C14", "C15", "C11"], "C16-b": ["C16", "C19"], "C17-b": ["C17"], "C19-b": ["C19"],
 }
 only = sys.argv[1:]
 for sid in sorted(os.listdir("/verif/seeded")):
